@@ -1,12 +1,12 @@
 #![feature(allocator_api)]
 #![allow(unused)]
 use vstd::prelude::*;
+use vstd::std_specs::cmp::*;
+use core::cmp::Ordering as CmpOrdering;
 use std::sync::Arc;
 verus! {
 // ---- unit prelude (ASSUMED): opaque values for everything a builder merely stores ----
-#[derive(Clone, Copy, PartialEq, Eq, Structural)]
-pub struct Duration { pub nanos: u128 }
-impl Duration { pub const ZERO: Duration = Duration { nanos: 0 }; }
+//@include time.rs
 pub struct Name { pub id: Ghost<int> }
 pub struct EventListeners { pub n: Ghost<nat> }
 impl EventListeners {
@@ -34,6 +34,9 @@ impl BulkheadConfigBuilder {
     pub fn new() -> (r: Self)
         ensures r.max_wait_duration is None && r.event_listeners.n@ == 0 && r.max_concurrent_calls >= 1,   // #defaults_wait_forever_with_positive_capacity [C07]
     //@body BulkheadConfigBuilder::new file=bhconfig
+    pub fn default() -> (r: Self)
+        ensures r.max_wait_duration is None && r.event_listeners.n@ == 0 && r.max_concurrent_calls >= 1,   // #defaults_wait_forever_with_positive_capacity [C07]
+    //@body BulkheadConfigBuilder::default@Default file=bhconfig
     pub fn max_concurrent_calls(self, max: usize) -> (r: Self)
         ensures r.max_concurrent_calls == max,   // #sets_max_concurrent_calls [C01,C07]
             r.max_wait_duration == self.max_wait_duration && r.name == self.name && r.event_listeners == self.event_listeners,   // #keeps_every_other_setting [C01,C07]
@@ -78,7 +81,18 @@ impl RateLimiterLayer {
     //@body RateLimiterLayer::new file=rllayer
 }
 pub struct RateLimiterConfigBuilder { pub limit_for_period: usize, pub refresh_period: Duration, pub timeout_duration: Duration, pub window_type: WindowType, pub event_listeners: EventListeners, pub name: Name }
+impl WindowType { /// #[derive(Default)]: which variant carries #[default] is not claimed here
+    #[verifier::external_body] pub fn default() -> (r: Self) { unimplemented!() } }
+pub open spec fn rl_defaults(r: RateLimiterConfigBuilder) -> bool {
+    r.limit_for_period == 50 && r.refresh_period.nanos == 1_000_000_000 && r.timeout_duration.nanos == 100_000_000 && r.event_listeners.n@ == 0
+}
 impl RateLimiterConfigBuilder {
+    pub fn new() -> (r: Self)
+        ensures rl_defaults(r),   // #defaults_50_per_second_waiting_at_most_100ms [C02,C15]
+    //@body RateLimiterConfigBuilder::new file=rlconfig
+    pub fn default() -> (r: Self)
+        ensures rl_defaults(r),   // #defaults_50_per_second_waiting_at_most_100ms [C02,C15]
+    //@body RateLimiterConfigBuilder::default@Default file=rlconfig
     pub fn limit_for_period(self, limit: usize) -> (r: Self)
         ensures r.limit_for_period == limit,   // #sets_limit_for_period [C02]
             r.refresh_period == self.refresh_period && r.timeout_duration == self.timeout_duration && r.window_type == self.window_type && r.event_listeners == self.event_listeners && r.name == self.name,   // #keeps_every_other_setting [C02,C15]
@@ -123,8 +137,27 @@ impl HedgeLayer {
         ensures r.config == config,   // #layer_keeps_the_configuration [C12]
     //@body HedgeLayer::from_config file=hglayer
 }
+pub open spec fn hedge_defaults(c: HedgeConfig) -> bool {
+    c.name is None && c.max_hedged_attempts == 2 && c.delay == HedgeDelay::Fixed(Duration { nanos: 1_000_000_000 }) && c.listeners.n@ == 0
+}
+impl HedgeDelay {
+    pub fn default() -> (r: Self)
+        ensures r == HedgeDelay::Fixed(Duration { nanos: 1_000_000_000 }),   // #default_delay_is_one_second [C12]
+    //@body HedgeDelay::default@Default file=hgconfig
+}
+impl HedgeConfig {
+    pub fn default() -> (r: Self)
+        ensures hedge_defaults(r),   // #defaults_one_hedge_after_one_second [C12]
+    //@body HedgeConfig::default@Default file=hgconfig
+}
 pub struct HedgeConfigBuilder { pub config: HedgeConfig }
 impl HedgeConfigBuilder {
+    pub fn new() -> (r: Self)
+        ensures hedge_defaults(r.config),   // #defaults_one_hedge_after_one_second [C12]
+    //@body HedgeConfigBuilder::new file=hgconfig
+    pub fn default() -> (r: Self)
+        ensures hedge_defaults(r.config),   // #defaults_one_hedge_after_one_second [C12]
+    //@body HedgeConfigBuilder::default@Default file=hgconfig
     pub fn name(self, name: Name) -> (r: Self)
         ensures r.config.max_hedged_attempts == self.config.max_hedged_attempts && r.config.delay == self.config.delay && r.config.listeners == self.config.listeners,   // #keeps_every_other_setting [C12]
     //@body HedgeConfigBuilder::name file=hgconfig
